@@ -396,7 +396,7 @@ impl Prop for C20 {
                 let flat_fields: Vec<&FieldSpec> = specs.iter().flat_map(|s| s.fields.iter()).collect();
                 let choices = |i: usize| -> Vec<usize> {
                     let fld = flat_fields[i];
-                    let mut all: Vec<usize> = (0..=fld.valid.len().min(3)).collect();
+                    let mut all: Vec<usize> = (0..=fld.valid.len()).collect();
                     if fld.mandatory {
                         all.retain(|x| *x != 0);
                     }
